@@ -669,6 +669,6 @@ func CheckC09(c *C09Case, st *Stats) error {
 
 func init() {
 	Register("C09",
-		"receiver and argument are built through a drawn history (constructor NewList/NewListFrom/NewListOf/Add-by-Add, 0-40 further Adds crossing capacity boundaries, Inserts, then 0-3 Pops and 0-2 Deletes so that length/capacity relations vary; the argument may be empty), then 1-2 derivations from the same receiver drawn from the full table (Concat incl. self, SubList, 6 Filter*, 9 Map* incl. MapAsync, Slice and the 6 typed slices, 4 Reduce*, String, FormatString, Equals, Contains, IndexOf; for objects Merge incl. self, Pluck, Keys, Values, Dict, 9 Map*, String, FormatString, Equals, Contains), then 1-8 top-level mutations (Add, Insert, Replace, Delete, Pop, Clear, Sort in domain, Reverse, Set, Unset; element assignment / append within capacity / delete for Go slices and maps) on any participant. Oracle: top-level slot snapshots (scalar value or identity of the nested container per slot) of receiver and argument are unchanged by the derivation, and after every mutation every other participant's snapshot is unchanged. Non-trivial = at least one mutation of the receiver or a result after a derivation from a receiver with Pop/Delete or growth history, or with an empty argument, or in object mode. Distinct = distinct FNV-64a hash of the case JSON.",
+		"receiver and argument are built through a drawn history (constructor NewList/NewListFrom/NewListOf/Add-by-Add, 0-129 further Adds crossing capacity boundaries, Inserts, then 0-3 Pops and 0-2 Deletes so that length/capacity relations vary; the argument may be empty), then 1-2 derivations from the same receiver drawn from the full table (Concat incl. self, SubList, 6 Filter*, 9 Map* incl. MapAsync, Slice and the 6 typed slices, 4 Reduce*, String, FormatString, Equals, Contains, IndexOf; for objects Merge incl. self, Pluck, Keys, Values, Dict, 9 Map*, String, FormatString, Equals, Contains), then 1-8 top-level mutations (Add, Insert, Replace, Delete, Pop, Clear, Sort in domain, Reverse, Set, Unset; element assignment / append within capacity / delete for Go slices and maps) on any participant. Oracle: top-level slot snapshots (scalar value or identity of the nested container per slot) of receiver and argument are unchanged by the derivation, and after every mutation every other participant's snapshot is unchanged. Non-trivial = at least one mutation of the receiver or a result after a derivation from a receiver with Pop/Delete or growth history, or with an empty argument, or in object mode. Distinct = distinct FNV-64a hash of the case JSON.",
 		GenC09, CheckC09)
 }
